@@ -598,6 +598,14 @@ class C04Engine(Engine):
             if method == "bregman-adaptive" and r.random() < 0.5:
                 cfg["method"] = "bregman"
                 cfg.pop("update_every", None)
+        if 48 <= i < 52 or substream(seed, "profile3").random() < 0.02:
+            # a grid with more than 100 cells and the library's DEFAULT multigrid options (max_coarse=100 still yields a
+            # hierarchy), few nonlinear iterations
+            cfg.update(shape=[r.choice([11, 12]), r.choice([10, 11])], voxel_size=[r.choice([0.5, 1.0]), r.choice([1.0, 2.0])],
+                       formulation="pressure", linear_solver=r.choice(["amg", "cg"]), amg_default=True, num_iter=r.randint(1, 3),
+                       ls_options=r.choice([{}, {"atol": 1e-10, "rtol": 1e-10}]))
+            cfg.pop("max_coarse", None)
+            cfg.pop("weight", None)
         e = substream(seed, "env")
         env = {"tracemalloc": "real" if e.random() < 0.1 else "stub", "np_seed": e.randint(0, 2**31)}
         if e.random() < 0.5:
